@@ -560,9 +560,11 @@ def histogramdd(sample, bins, range=None, normed=None, weights=None, density=Non
     else:
         edges = [np.asarray(b) for b in bins]
 
-    # Get sample expression(s)
+    # Get sample expression(s).  The layer below pairs sample and weights
+    # blocks by number, so the operands keep the layout that was checked
+    # above even if optimization would re-block one of them.
     if rectangular_sample:
-        sample_expr = sample.expr
+        sample_expr = sample.freeze_chunks().expr
     else:
         sample_expr = tuple(s.expr for s in sample)
 
@@ -571,7 +573,7 @@ def histogramdd(sample, bins, range=None, normed=None, weights=None, density=Non
         sample_expr,
         tuple(edges),
         range,
-        weights.expr if weights is not None else None,
+        weights.freeze_chunks().expr if weights is not None else None,
         rectangular_sample,
         n_chunks,
         D,
